@@ -9,9 +9,19 @@
     message determine (equal hash: equal Nonce and Fee; equal Signature: equal
     sender and sign type); the check evaluates it on every generated case.
     The former guard "the wrapper is the first transaction" is gone: the
-    repaired mempool (isGroupHead) enforces it. *)
+    repaired mempool (isGroupHead) enforces it.
+    [acceptable] now also holds: no involved account listed at any of the five
+    blacklist positions ([listed]: sender, recipient, real recipient, evm contract
+    address, evm 20-byte Para), and the carried transactions belong to one chain
+    ([cl_para]: ForkTxGroupPara).  Histories (ModelH.v): [hrun sc st ops] runs
+    EventTx / EventAddDelayTx / EventAddBlock messages; [view sc h] is the
+    configuration the admission checks see at header [h] (height, block time,
+    clock and the fork gates re-evaluated); the second component of [hrun] lists
+    every admission (view, pool before, submission). *)
 From Coq Require Import List ZArith NArith Bool.
-From C33 Require Import C22.Model C22.Spec C22.Proofs C22.ProofsRefute.
+From C33 Require Import C22.Model C22.Spec C22.Proofs C22.ProofsRefute C22.ModelH C22.ProofsH C22.ProofsH2
+                        C22.ExamplesH C22.Bridge31.
+From C33 Require C31.Model.
 Import ListNotations.
 Open Scope Z_scope.
 
@@ -24,7 +34,7 @@ Print Assumptions C22_accepted_implies_acceptable_partial.
 
 Theorem C22_group_members_checked : forall c p s ms ok p',
   pipeline c p (STx s) = (R_OK, p') -> s_forward s = false -> s_shape s = Group ms ok ->
-  ok = true /\ 2 <= Z.of_nat (length ms) /\
+  ok = true /\ 2 <= Z.of_nat (length ms) /\ cl_para c ms = true /\
   forall t, In t ms ->
     t_sig_ok t = true /\ t_to_valid t = true /\ t_blocked t = false /\ t_on_chain t = false
     /\ (c_strict_chain c = true -> t_chain_ok t = true)
@@ -104,3 +114,99 @@ Theorem C22_guards_satisfiable :
                    /\ acceptable c p s = true /\ length (members s) = 3%nat.
 Proof. exact guards_satisfiable. Qed.
 Print Assumptions C22_guards_satisfiable.
+
+(** ** blacklist positions: [blocked_pos] on the facts of a transaction is C31's [core] on the
+    transaction itself ([bl_agrees]: each fact is the address-level test of C31's model), and such
+    facts satisfy the consistency the main theorem assumes *)
+Theorem C22_blacklist_positions_are_C31_core : forall cks set t u,
+  bl_agrees cks set t u -> blocked_pos t = C31.Model.core cks set u /\ tx_consistent t = true.
+Proof. exact positions_are_core. Qed.
+Print Assumptions C22_blacklist_positions_are_C31_core.
+
+(** ** histories in which the header moves and transactions are delayed *)
+
+(** every pool entry of a history from the empty mempool went through the admission pipeline at
+    some header [h] (fork gates, height and times of that moment), as an EventTx message or as a
+    delayed transaction (EventAddDelayTx / a block's CommitDelayTx) re-submitted by a block; under
+    the guards it was acceptable there *)
+Theorem C22_history_entries_admitted_partial : forall sc h0 ops st' lg,
+  hrun sc (mkSt h0 [] []) ops = (st', lg) ->
+  forall e, In e (st_pool st') ->
+  exists h p s, e = s_outer s /\ In s (subs_of ops)
+    /\ pipeline (view sc h) p (STx s) = (R_OK, p ++ [e])
+    /\ (cfg_ok (view sc h) -> facts_consistent s = true ->
+        g_fwd s && g_fee (view sc h) s && g_hdr s = true -> acceptable (view sc h) p s = true).
+Proof. exact history_entries_admitted. Qed.
+Print Assumptions C22_history_entries_admitted_partial.
+
+(** no pool entry is expired for the next block of the CURRENT header, whatever blocks arrived in
+    between (the sweep of EventAddBlock and the pipeline use the same rule at the same header);
+    guard [good] = not forwarded, no member Header parsing as an empty group, consistent facts *)
+Theorem C22_history_pool_unexpired_partial : forall sc h0 ops st' lg,
+  hrun sc (mkSt h0 [] []) ops = (st', lg) ->
+  forallb good (subs_of ops) = true ->
+  forall e, In e (st_pool st') -> sweep_expired (view sc (st_hdr st')) e = false.
+Proof. exact history_unexpired. Qed.
+Print Assumptions C22_history_pool_unexpired_partial.
+
+(** without the guard (facts still consistent) it fails: finding 4 leaves an expired group in the pool *)
+Theorem C22_history_pool_unexpired_refuted : ~ history_unexpired_full.
+Proof. exact history_unexpired_refuted. Qed.
+Print Assumptions C22_history_pool_unexpired_refuted.
+
+(** the delay cache never holds a transaction that hits the blacklist, and holds only delayed
+    transactions the history carried *)
+Theorem C22_delay_cache_never_blocked : forall sc h0 ops st' lg,
+  hrun sc (mkSt h0 [] []) ops = (st', lg) ->
+  forall d, In d (st_dc st') -> t_blocked (s_outer (fst d)) = false /\ In (fst d) (subs_of ops).
+Proof. exact history_dc_clean. Qed.
+Print Assumptions C22_delay_cache_never_blocked.
+
+(** non-vacuity: the verdict on one transaction changes both ways when the header moves ... *)
+Theorem C22_header_moves_verdicts :
+  hobs xsc (mkSt (xh 110) [] []) [OTx (STx x_window); OBlock (xblock 111); OTx (STx x_window)]
+    = [(R_EXPIRED, []); (0%N, []); (R_OK, [1%N])]
+  /\ hobs xsc (mkSt (xh 111) [] []) [OTx (STx x_height); OBlock (xblock 100); OBlock (xblock 112); OTx (STx x_height)]
+    = [(R_OK, [2%N]); (0%N, [2%N]); (0%N, []); (R_EXPIRED, [])]
+  /\ acceptable (view xsc (xh 110)) [] x_window = false /\ acceptable (view xsc (xh 111)) [] x_window = true
+  /\ acceptable (view xsc (xh 111)) [] x_height = true /\ acceptable (view xsc (xh 112)) [] x_height = false.
+Proof. exact header_moves_verdicts. Qed.
+Print Assumptions C22_header_moves_verdicts.
+
+(** ... a fork gate (ForkTxGroupPara at 120) starts to refuse mixed groups; a title next to an
+    execer with the bare "user.p." prefix passes ... *)
+Theorem C22_fork_gate_moves_verdict :
+  hobs xsc (mkSt (xh 118) [] []) [OTx (STx (x_mixed 3)); OBlock (xblock 119); OTx (STx (x_mixed 5));
+                                  OTx (STx x_two_titles); OTx (STx x_title_notitle)]
+    = [(R_OK, [3%N]); (0%N, [3%N]); (R_PARAMIX, [3%N]); (R_PARACOUNT, [3%N]); (R_OK, [3%N; 9%N])]
+  /\ facts_consistent (x_mixed 3) = true
+  /\ acceptable (view xsc (xh 118)) [] (x_mixed 3) = true /\ acceptable (view xsc (xh 119)) [] (x_mixed 5) = false
+  /\ acceptable (view xsc (xh 119)) [] x_two_titles = false
+  /\ acceptable (view xsc (xh 119)) [] x_title_notitle = true.
+Proof. exact fork_gate_moves_verdict. Qed.
+Print Assumptions C22_fork_gate_moves_verdict.
+
+(** ... and delayed transactions enter when due, in order of their time, through the pipeline *)
+Theorem C22_delayed_enter_through_pipeline :
+  hobs xsc (mkSt (xh 111) [] [])
+       [ODelay (DTx (xtx 11 0) 1699999985); ODelay (DTx (xtx 12 0) 1699999982); ODelay (DTx (xtx 13 0) 113);
+        ODelay (DTx x_blocked_to 1699999983); ODelay (DTx (xtx 11 0) 5); ODelay (DNil 5); ODelay DBad;
+        ODelay (DTx x_height 1699999990);
+        ODelay (DTx (xtx 14 0) 1699999999);
+        OBlock (mkB 112 1699999985 1700000001 [] []);
+        OBlock (mkB 113 1699999990 1700000002 [] [(xtx 15 0, 0, 0); (xtx 16 0, 5, 0)]);
+        OBlock (mkB 114 1699999995 1700000003 [] [])]
+    = [(R_OK, []); (R_OK, []); (R_OK, []); (R_BL_TO, []); (R_DUP, []); (R_DNIL, []); (R_DPARAM, []);
+       (R_OK, []); (R_DOVER, []);
+       (0%N, [12%N; 11%N]);
+       (0%N, [12%N; 11%N; 13%N; 15%N]);
+       (0%N, [12%N; 11%N; 13%N; 15%N; 16%N])].
+Proof. exact delayed_enter_through_pipeline. Qed.
+Print Assumptions C22_delayed_enter_through_pipeline.
+
+Theorem C22_history_guard_satisfiable :
+  forallb good (subs_of [OTx (STx x_window); OBlock (xblock 111); OTx (STx x_window); OTx (STx (x_mixed 3));
+                         ODelay (DTx (xtx 11 0) 1699999985);
+                         OBlock (mkB 113 1699999990 1700000002 [] [(xtx 15 0, 0, 0)])]) = true.
+Proof. exact histories_good. Qed.
+Print Assumptions C22_history_guard_satisfiable.
